@@ -128,6 +128,13 @@ class Report:
         self.infos.append(msg)
 
     # ------------------------------------------------------------------ finish
+    def has_unlisted_violation(self, known_path: Optional[Path] = None) -> bool:
+        """Is there a violation that is not an open known finding (i.e. one that makes the run exit 1)?"""
+        known_path = known_path or (VERIF / "known_findings.json")
+        known = json.loads(known_path.read_text()) if known_path.is_file() else []
+        open_keys = {k["key"] for k in known if k.get("status") == "open" and k.get("property") == self.prop}
+        return any(v.key not in open_keys for v in self.violations)
+
     def finish(self, evidence_dir: Optional[Path] = None, known_path: Optional[Path] = None, write=True) -> int:
         evidence_dir = evidence_dir or (VERIF / "evidence")
         known_path = known_path or (VERIF / "known_findings.json")
